@@ -313,7 +313,10 @@ def _next_down(x):
 COMMON = [None, "", " ", "\t", "\xa0", "\n", "abc", "some text", "12abc", "abc12", "0", "-0", "+0", "1", "-1", "12", "007",
           "1.5", "-1.5", "1.", ".5", "1e3", "1E3", "1e-3", "1.2.3", "1,5", "--1", "+-1", "1e", "e5", "1e5.5", "0x10", "1_0",
           " 12", "12 ", "１２", "١٢", "²", "①", "4₂", "½", "Ⅻ", "一二", "1²", "nan", "NaN", "-nan", "inf", "-inf", "+inf", "Infinity", "-Infinity", " nan", "inf ",
-          "1e308", "1e309", "-1e309", "5e-324", "1e-400", "-1e-400", "\U0001F600", "é", "a" * 200, "<x>", "&amp;", "None", "True"]
+          "1e308", "1e309", "-1e309", "5e-324", "1e-400", "-1e-400", "\U0001F600", "é", "a" * 200, "<x>", "&amp;", "None", "True",
+          # signs and separators that look right and are not ASCII: U+2212 minus, en dash, non-breaking hyphen, full-width plus, Arabic
+          # decimal separator, a thin space as thousands separator
+          "\u22121", "\u2212105.25", "1e\u22123", "\u22120", "\u20135", "\u20115", "\uff0b5", "1\u066b5", "1\u2009000", "1 000", "1,000", "+-5", "5-", "5+"]
 
 BOUNDS = []
 for b in (180.0, 90.0, 0.0):
